@@ -162,7 +162,12 @@ class Extractor:
                 nm = self.names()
                 for (root, proj), v in S.mem.items():
                     if root[0] == "P" and is_param_load(root[1], 1) and proj and all(e[0] in ("f", "len") for e in proj):
-                        fin.append((".".join(e[2] if e[0] == "f" else "len" for e in proj), render_value(self.prog, v, names=nm)))
+                        fld = ".".join(e[2] if e[0] == "f" else "len" for e in proj)
+                        fin.append((fld, render_value(self.prog, v, names=nm)))
+                        if isinstance(v, tuple) and v[0] == "upd":
+                            for pr, lv in v[2]:
+                                if pr == (("len",),):
+                                    fin.append((fld + ".len", render_value(self.prog, lv, names=nm)))
                 toks = toks + [("final", tuple(sorted(fin)))]
             self.paths.append(tuple(toks + [("end", res)]))
             del self.order[mark:]
